@@ -5,10 +5,10 @@ package main
 // after every step.
 
 import (
-	"os"
 	"encoding/binary"
 	"fmt"
 	"math/rand"
+	"os"
 	"strings"
 	"time"
 
@@ -196,13 +196,13 @@ type ConnCfg struct {
 }
 
 type Step struct {
-	Kind string // feed | evict | drop | advance | fault (applies to the next feed)
+	Kind  string // feed | evict | drop | advance | fault (applies to the next feed)
 	Fault *FaultSpec
-	Conn string
-	Cmd  Command
-	Tier string // evict/drop
-	Key  []byte
-	Secs int64
+	Conn  string
+	Cmd   Command
+	Tier  string // evict/drop
+	Key   []byte
+	Secs  int64
 }
 
 // FaultSpec is a backend fault planned for the next fed command.
